@@ -19,17 +19,20 @@ from . import common
 from .common import Check, run_tlc, SPECS
 
 ALL_LEAVES = ["U8", "S8", "U16", "S16", "U32", "S32", "U64", "S64", "F32", "F64", "UUID", "Vec3", "Null",
-              "BA8", "BAS8", "BA16", "BF2", "BG", "BT", "BTs", "BTn", "STR8", "STR16n", "SF3", "CS", "CSn",
+              "BA8", "BAS8", "BA16", "BA32", "BF2", "BG", "BT", "BTs", "BTn", "STR8", "STR16n", "SF3", "CS", "CSn",
               "BIT8", "BIT16n"]
 ALL_CONS = ["CollP", "CollP16", "CollF", "CollG", "OptP", "IfP", "TBP", "TBPe", "TBF", "TBG", "TBGe", "TBT", "TBTe",
             "LenSw", "LenSwD", "EnumSw", "FlagSw", "TupA", "TupB", "Tup2", "TmplA", "TmplFlag", "TmplSkip",
             "TmplCtx", "TmplCtxUp", "Adapt"]
-INVS = ["RoundTrip", "Compose", "SizeSound", "EndianAgnostic", "DecTotal"]
+# ill-formed programs (context lookups that cannot resolve, switches over signed / wide selectors): they have no domain
+# values; the model only requires Enc to classify them as such and Dec to stay total
+MISUSE_CONS = ["MisOpt", "MisTup", "MisSel", "MisName", "MisUp", "MisFlagS", "MisEnumW", "MisBitS"]
+INVS = ["RoundTrip", "Compose", "SizeSound", "EndianAgnostic", "DecTotal", "DecProbe", "EncTotal"]
 TAILS = [b"", b"\x00", b"\xff\x01", b"\x00\x00\x07"]
 JVM = ("-XX:ParallelGCThreads=2", "-XX:CICompilerCount=2")   # many small JVMs side by side: keep each one narrow
 
 
-CPU_LIMIT = 3.0   # seconds of CPU one call into the implementation may use (a mutant may loop forever)
+CPU_LIMIT = 1.0   # seconds of CPU one call into the implementation may use (a mutant may loop forever)
 
 
 class ImplTimeout(Exception):
@@ -40,15 +43,31 @@ def _on_alarm(signum, frame):
     raise ImplTimeout("no result after %gs of CPU time" % CPU_LIMIT)
 
 
+class cpu_guard:
+    """Bound the CPU time of a block that runs implementation code (raises ImplTimeout inside it)."""
+
+    def __enter__(self):
+        self.old = signal.signal(signal.SIGVTALRM, _on_alarm)
+        signal.setitimer(signal.ITIMER_VIRTUAL, CPU_LIMIT)
+
+    def __exit__(self, *exc):
+        signal.setitimer(signal.ITIMER_VIRTUAL, 0)
+        signal.signal(signal.SIGVTALRM, self.old)
+        return False
+
+
 def impl_call(fn, *a, **kw):
     """common.impl_call with a CPU-time bound: a call that does not return is an observation too."""
-    old = signal.signal(signal.SIGVTALRM, _on_alarm)
-    signal.setitimer(signal.ITIMER_VIRTUAL, CPU_LIMIT)
-    try:
+    with cpu_guard():
         return common.impl_call(fn, *a, **kw)
-    finally:
-        signal.setitimer(signal.ITIMER_VIRTUAL, 0)
-        signal.signal(signal.SIGVTALRM, old)
+
+
+def _limit_worker_memory():
+    """Safety net in pool workers: a mutant that allocates without end gets a MemoryError (an observation)."""
+    import multiprocessing
+    import resource
+    if multiprocessing.current_process().name != "MainProcess":
+        resource.setrlimit(resource.RLIMIT_AS, (8 << 30, 8 << 30))
 
 
 def _set(xs):
@@ -173,7 +192,8 @@ def _se():
 
 def _canon_call(reflect, value, tree, pod):
     try:
-        return "ok", reflect.canon(value, tree, pod)
+        with cpu_guard():
+            return "ok", reflect.canon(value, tree, pod)
     except reflect.Unreflectable:
         raise
     except Exception as e:  # noqa: a lazily deferred read failing while the value is inspected is an observation
@@ -346,6 +366,7 @@ def replay_table(rec):
 
 
 def _replay_chunk(recs):
+    _limit_worker_memory()
     n = nt = 0
     out = []
     for r in recs:
@@ -896,6 +917,7 @@ def _gen_cases(seed, n, max_depth):
 
 
 def _gen_chunk(args):
+    _limit_worker_memory()
     return _gen_cases(*args)
 
 
